@@ -72,8 +72,10 @@ static const char *entry_name[] = {"tfhe_bootstrap_woKS_FFT", "tfhe_bootstrap_FF
 
 static double max_err[4] = {0, 0, 0, 0};
 
+static const LweBootstrappingKey *use_bk = nullptr; static const LweBootstrappingKeyFFT *use_bkf = nullptr;   // stand-alone key objects (mode d)
+static std::string *last_output = nullptr;
 static void run_bootstrap(Ctx &c, int entry, Torus32 mu, const LweSample *x, const char *xclass, bool exact_expected) {
-    const LweBootstrappingKey *bk = c.sk->cloud.bk; const LweBootstrappingKeyFFT *bkf = c.sk->cloud.bkFFT;
+    const LweBootstrappingKey *bk = use_bk ? use_bk : c.sk->cloud.bk; const LweBootstrappingKeyFFT *bkf = use_bkf ? use_bkf : c.sk->cloud.bkFFT;
     bool ks = entry == KS_FFT || entry == KS;
     const LweParams *outp = ks ? c.ps->lwe : &c.ps->tlwe->extracted_lweparams;
     GuardedLwe g(outp);
@@ -85,6 +87,7 @@ static void run_bootstrap(Ctx &c, int entry, Torus32 mu, const LweSample *x, con
         case KS: tfhe_bootstrap(g.s, bk, mu, x); break;
     }
     U ph = ks ? ref_lwe_phase(g.s, c.s, c.n) : ref_lwe_phase(g.s, c.ext.data(), c.k * c.N);
+    if (last_output) { last_output->append((const char *) g.s->a, 4 * outp->n); last_output->append((const char *) &g.s->b, 4); }
     int nties; std::vector<int> ps = predict_p(c, x, &nties);
     out.evaluations++;
     if (ps.size() == 1 && ps[0] == -1) { out.tcell("too-many-ties"); return; }
@@ -166,6 +169,57 @@ static void mode_masks(Ctx &c, int entry_mask, int count) {
     delete_LweSample(x);
 }
 
+// (d) object histories of stand-alone key objects: a coefficient-domain key and the FFT-domain key derived from it are
+// independent objects, each usable (with bit-identical results) whatever happens to the other one afterwards: the source key
+// re-filled for another secret key, the source key deleted, the derived key deleted.
+static void mode_lifetimes(Ctx &c) {
+    LweSample *x = new_LweSample(c.ps->lwe);
+    std::vector<std::vector<int32_t>> xs;
+    for (int it = 0; it < 6; it++) { std::vector<int32_t> v(c.n + 1); for (auto &w: v) w = rng.i32(); xs.push_back(v); }
+    auto round_of = [&](int mask, const char *stage) { std::string o; last_output = &o;
+        for (auto &v: xs) { memcpy(x->a, v.data(), 4 * c.n); x->b = v[c.n]; x->current_variance = 1e-6;
+            for (int e = 0; e < 4; e++) if (mask & (1 << e)) run_bootstrap(c, e, (Torus32) (1u << 29), x, stage, false); }
+        last_output = nullptr; return o; };
+    LweBootstrappingKey *bk = new_LweBootstrappingKey(c.t, c.bb, c.ps->lwe, c.ps->tgsw);
+    VH_OP("lifetimes:tfhe_createLweBootstrappingKey");
+    tfhe_createLweBootstrappingKey(bk, c.sk->lwe_key, c.sk->tgsw_key);
+    LweBootstrappingKeyFFT *bkf = new_LweBootstrappingKeyFFT(bk);
+    use_bk = bk; use_bkf = bkf;
+    const int FFT = (1 << WOKS_FFT) | (1 << KS_FFT), COEF = (1 << WOKS) | (1 << KS);
+    std::string f0 = round_of(FFT, "lifetime:fresh"), c0 = round_of(1 << KS, "lifetime:fresh");
+    auto same = [&](const std::string &a, const std::string &b, const char *what) { out.evaluations++;
+        if (a != b) out.viol("bootstrap:key-object-history", J().s("config", c.cfg).s("history", what).s("note", "same key object, same inputs, different output bits")); };
+    // the source key object is re-filled for an unrelated secret key: the derived FFT key still belongs to the first one
+    { TFheGateBootstrappingSecretKeySet *sk2 = new_random_gate_bootstrapping_secret_keyset(c.ps->gb);
+      VH_OP("lifetimes:refill-source-key");
+      tfhe_createLweBootstrappingKey(bk, sk2->lwe_key, sk2->tgsw_key);
+      same(f0, round_of(FFT, "lifetime:source-key-refilled"), "FFT key used after its source key object was re-filled for another secret key");
+      // a second FFT key derived now belongs to the second secret key, and deleting it leaves the first untouched
+      LweBootstrappingKeyFFT *bkf2 = new_LweBootstrappingKeyFFT(bk); delete_LweBootstrappingKeyFFT(bkf2);
+      same(f0, round_of(FFT, "lifetime:sibling-deleted"), "FFT key used after a sibling FFT key of the same source object was deleted");
+      delete_gate_bootstrapping_secret_keyset(sk2); }
+    // the source key object is deleted
+    VH_OP("lifetimes:delete-source-key");
+    use_bk = nullptr; delete_LweBootstrappingKey(bk);
+    { std::vector<TorusPolynomial *> churn; for (int i = 0; i < 64; i++) churn.push_back(new_TorusPolynomial(c.N)); for (auto *q: churn) delete_TorusPolynomial(q); }
+    same(f0, round_of(FFT, "lifetime:source-key-deleted"), "FFT key used after its source key object was deleted");
+    // the other direction: the coefficient-domain key outlives the FFT key derived from it
+    bk = new_LweBootstrappingKey(c.t, c.bb, c.ps->lwe, c.ps->tgsw); tfhe_createLweBootstrappingKey(bk, c.sk->lwe_key, c.sk->tgsw_key);
+    use_bk = bk; std::string c1 = round_of(1 << KS, "lifetime:fresh");
+    { LweBootstrappingKeyFFT *t2 = new_LweBootstrappingKeyFFT(bk); VH_OP("lifetimes:delete-derived-key"); delete_LweBootstrappingKeyFFT(t2); }
+    delete_LweBootstrappingKeyFFT(bkf); use_bkf = nullptr;
+    same(c1, round_of(1 << KS, "lifetime:derived-key-deleted"), "coefficient-domain key used after the FFT key derived from it was deleted");
+    (void) c0; (void) COEF;
+    use_bk = nullptr; delete_LweBootstrappingKey(bk);
+    // the key set objects: the cloud part of a secret key set after a second key set was generated and deleted
+    { std::string g0 = round_of(FFT, "lifetime:keyset");
+      TFheGateBootstrappingSecretKeySet *sk3 = new_random_gate_bootstrapping_secret_keyset(c.ps->gb); delete_gate_bootstrapping_secret_keyset(sk3);
+      same(g0, round_of(FFT, "lifetime:other-keyset-deleted"), "key set used after another key set of the same parameters was generated and deleted"); }
+    char cell[128];
+    for (const char *h: {"source-key-refilled", "sibling-deleted", "source-key-deleted", "derived-key-deleted", "other-keyset-deleted"}) { snprintf(cell, sizeof cell, "%s:lifetime:%s", c.cfg.c_str(), h); out.cell(cell, xs.size()); }
+    delete_LweSample(x);
+}
+
 // (c) blind-rotate-and-extract with an arbitrary test polynomial, all 2N values of p
 static void mode_extract(Ctx &c, int step, bool fft, bool nofft) {
     const int N2 = 2 * c.N, N = c.N, n = c.n;
@@ -227,6 +281,7 @@ int main(int argc, char **argv) {
     int entry_mask = args.i("entries", 15);
     if (modes.find('a') != std::string::npos) mode_trivial(c, entry_mask);
     if (modes.find('b') != std::string::npos) mode_masks(c, entry_mask, args.i("count", 40));
+    if (modes.find('d') != std::string::npos) mode_lifetimes(c);
     if (modes.find('c') != std::string::npos) mode_extract(c, args.i("pstep", 1), true, args.i("coefdomain", 1));
     out.stat(J().s("kind", "bootstrap-config").s("config", c.cfg).d("tol_woKS", c.tol_woks).d("tol_KS", c.tol_ks).d("tol_structured_extra", c.tol_struct)
                      .d("max_err_woKS_FFT", max_err[0]).d("max_err_KS_FFT", max_err[1]).d("max_err_woKS", max_err[2]).d("max_err_KS", max_err[3]));
